@@ -88,7 +88,9 @@ def functions_for(reg: Registry, pid: str):
         for lc in c.loops.values():
             for cl in lc.invariant:
                 tags |= set(cl.serves)
-        if pid in tags:
+        if pid in tags or (pid == "C15" and not c.inline and not c.bounded_only):
+            # C15: every function under contract has frame obligations (cells not listed in `modifies` are unchanged),
+            # which are part of "no hidden state"; they are discharged by the C15 check for all functions
             out.append(q)
     return out
 
